@@ -76,10 +76,10 @@ def fresh(job, run_dir, tag, hashseed='0'):
     jf = os.path.join(run_dir, 'jobs', tag + '.json')
     with open(jf, 'w') as f:
         json.dump(job, f)
-    env = dict(os.environ, PYTHONHASHSEED=hashseed, VERIF_RUN_DIR=run_dir)
+    env = dict(os.environ, PYTHONHASHSEED=hashseed, VERIF_RUN_DIR=run_dir, PYTHONPATH=str(VERIF))
     env.pop('VERIF_CACHE_DIR', None)
     try:
-        r = subprocess.run([PYTHON, '-m', 'vf.qrun', jf], cwd=str(VERIF), env=env,
+        r = subprocess.run([PYTHON, '-m', 'vf.qrun', jf], cwd=os.getcwd(), env=env,
                            capture_output=True, text=True, timeout=600)
         if r.returncode != 0:
             return None
